@@ -78,7 +78,7 @@ async fn episode(p: &EpParams, mt: bool) -> EpReport {
     let n_burst = rng.range(17, 60);
     let with_delete_sub = rng.chance(1, 2);
     let with_delete_topic = rng.chance(1, 6);
-    let with_create = rng.chance(1, 4);
+    let with_create = rng.chance(1, 3);
     let n_publish = rng.range(0, 3);
     let topic_heavy = rng.chance(1, 4);
 
@@ -105,6 +105,13 @@ async fn episode(p: &EpParams, mt: bool) -> EpReport {
     }
     if with_create {
         specials.push("CreateSub");
+        // ... sometimes deleted again in the same burst (a publish may then meet a subscription
+        // that is attached although its actor is gone; it must still be answered)
+        if rng.chance(1, 2) {
+            specials.push("DeleteNewSub");
+            specials.push("Publish");
+            specials.push("Publish");
+        }
     }
     for _ in 0..n_publish {
         specials.push("Publish");
@@ -182,6 +189,9 @@ async fn episode(p: &EpParams, mt: bool) -> EpReport {
                 }
                 "CreateSub" => {
                     let _ = cx.create_sub(&new_sub, &t2, 10).await;
+                }
+                "DeleteNewSub" => {
+                    let _ = cx.delete_sub(&new_sub).await;
                 }
                 _ => {}
             }
